@@ -161,6 +161,10 @@ type hist struct {
 	foreignNow map[string]bool // canonical addresses the harness itself holds bound (guarded by mu)
 	envNoise   string
 	portNoise  int
+	censusObs  int
+	initIdx    int
+	baseServe  int
+	baseOther  int
 	props     []string
 	parked    bool
 	parksHit  int
@@ -414,6 +418,28 @@ func (h *hist) snapshot(quiet bool) string {
 	if quiet && !h.parked && h.rec.WaitQuiescent(300*time.Millisecond) {
 		h.rec.Emit("QQ")
 		h.quiesced++
+		// C18: the goroutines the library created on the runner's behalf, by creating function
+		serve, otherN, other := libCensus()
+		// goroutines an EARLIER history of this process leaked are that history's finding, not this one's
+		serve -= h.baseServe
+		if otherN <= h.baseOther {
+			other = nil
+		}
+		h.rec.Emit("CN%d", serve)
+		h.censusObs++
+		returned := false
+		select {
+		case <-h.runDone:
+			returned = true
+		default:
+		}
+		if returned {
+			h.prop("c18-clean", serve == 0 && len(other) == 0, "after Run() returned, at quiescence: %d serve goroutines created by boot(), others: %v",
+				serve, other)
+		} else {
+			h.prop("c18-bounded", serve <= 1 && len(other) == 0, "at quiescence (Run not returned): %d serve goroutines created by boot() after %d server creations, others: %v",
+				serve, len(h.servers), other)
+		}
 	}
 	st := h.runner.GetState()
 	h.rec.Emit("ST%d", stateCode[st])
@@ -468,6 +494,21 @@ func (h *hist) snapshot(quiet bool) string {
 		}
 	}
 	return st
+}
+
+// libCensus counts the live goroutines the library created: serve goroutines (creator (*Runner).boot) and others.
+func libCensus() (serve, otherN int, other []string) {
+	for fn, n := range director.CreatedByLibrary() {
+		switch {
+		case strings.HasPrefix(fn, "runnables/httpserver.(*Runner).boot"):
+			serve += n
+		case strings.HasPrefix(fn, "runnables/httpserver") || strings.HasPrefix(fn, "internal/finitestate") ||
+			strings.HasPrefix(fn, "supervisor/lifecycle"):
+			otherN += n
+			other = append(other, fmt.Sprintf("%s=%d", fn, n))
+		}
+	}
+	return
 }
 
 func (h *hist) waitState(d time.Duration, pred func(string) bool) string {
@@ -616,6 +657,7 @@ func (h *hist) variant(kind string, r *prng.R) (string, cfgSpec) {
 func (h *hist) run() {
 	h.rec = &director.Recorder{}
 	h.ph = &director.ParkHandler{}
+	h.baseServe, h.baseOther, _ = libCensus()
 	as := freeAddrs(4)
 	h.real = map[string]string{}
 	h.canon = map[string]string{}
@@ -655,6 +697,28 @@ func (h *hist) run() {
 				h.rec.Emit("RR%d", runClass(err))
 				close(h.runDone)
 			}()
+			if strings.HasPrefix(s.During, "probe-") && !h.stopIssued {
+				// the context is cancelled (or Stop arrives) INSIDE Run's own boot: 25 ms after the first server's
+				// ListenAndServe was entered, while the readiness probe waits for its first tick
+				deadline := time.Now().Add(2 * time.Second)
+				for time.Now().Before(deadline) {
+					h.mu.Lock()
+					started := len(h.servers) > 0 && h.servers[0].lasCall.Load()
+					h.mu.Unlock()
+					if started {
+						break
+					}
+					time.Sleep(200 * time.Microsecond)
+				}
+				time.Sleep(25 * time.Millisecond)
+				h.stopIssued = true
+				if s.During == "probe-stop" {
+					h.doStop()
+				} else {
+					h.rec.Emit("XX")
+					cancel()
+				}
+			}
 			if h.stopIssued {
 				if !waitCh(h.runDone, 10*time.Second) {
 					hung = true
@@ -663,6 +727,40 @@ func (h *hist) run() {
 				h.waitState(8*time.Second, func(st string) bool { return st != "New" && st != "Booting" })
 			}
 			h.snapshot(true)
+		case "busyrun":
+			// Run's own boot on an address a foreign process holds: the initial configuration is A3
+			if !h.runStarted {
+				c := h.cfgs[h.curIdx]
+				c.Addr = "A3"
+				k := h.intern(c)
+				h.curIdx, h.prevIdx = k, k
+				h.lastDelivered.Store(int64(k))
+				h.initIdx = k
+				h.next.Store(strconv.Itoa(k))
+				var err error
+				h.runner, err = httpserver.NewRunner(httpserver.WithConfigCallback(func() (*httpserver.Config, error) {
+					if h.cbCalls.Load() == 1 { // this runner's initial load
+						h.cbCalls.Add(1)
+						return h.realCfg(h.cfgs[k]), nil
+					}
+					return h.callback()
+				}), httpserver.WithLogHandler(h.ph))
+				if err != nil {
+					emitLine("HERR\t%s\tNewRunner: %v", h.sc.Name, err)
+					return
+				}
+				h.runStarted = true
+				h.rec.Emit("RC")
+				go func() {
+					err := h.runner.Run(ctx)
+					h.rec.Emit("RR%d", runClass(err))
+					close(h.runDone)
+				}()
+				if !waitCh(h.runDone, 10*time.Second) {
+					hung = true
+				}
+				h.snapshot(true)
+			}
 		case "fbind":
 			a := "A3"
 			if _, ok := h.foreign[a]; !ok {
@@ -955,9 +1053,9 @@ func (h *hist) run() {
 		emitLine("HENV\t%s\t%s\t%s", h.sc.Name, h.envNoise, js)
 		return
 	}
-	emitLine("H\t%s\t%s\t%d\t%s", h.sc.Name, strings.Join(encs, "|"), 0, strings.Join(h.rec.Events(), " "))
-	emitLine("HS\t%s\tkind=%s parks_hit=%d parks_missed=%d quiesced=%d servers=%d events=%d port_noise=%d\t%s", h.sc.Name, h.sc.Kind,
-		h.parksHit, h.parksMiss, h.quiesced, len(h.servers), len(h.rec.Events()), h.portNoise, js)
+	emitLine("H\t%s\t%s\t%d\t%s", h.sc.Name, strings.Join(encs, "|"), h.initIdx, strings.Join(h.rec.Events(), " "))
+	emitLine("HS\t%s\tkind=%s parks_hit=%d parks_missed=%d quiesced=%d servers=%d events=%d port_noise=%d census_obs=%d\t%s", h.sc.Name, h.sc.Kind,
+		h.parksHit, h.parksMiss, h.quiesced, len(h.servers), len(h.rec.Events()), h.portNoise, h.censusObs, js)
 	for _, p := range h.props {
 		emitLine("PROP\t%s\t%s", h.sc.Name, p)
 	}
@@ -985,6 +1083,12 @@ func fixedScripts() []hscript {
 		{Name: "cancel-before-run", Steps: []hstep{can, run}},
 		{Name: "unchanged", Steps: []hstep{run, rl("same"), rl("perm"), stop}},
 		{Name: "each-field", Steps: []hstep{run, rl("addr"), rl("timeout"), rl("routes"), rl("drain"), rl("idle"), rl("write"), can}},
+		{Name: "cancel-inside-run-boot", Steps: []hstep{{Op: "run", During: "probe-cancel"}}},
+		{Name: "stop-inside-run-boot", Steps: []hstep{{Op: "run", During: "probe-stop"}}},
+		{Name: "cancel-before-run-then-reloads", Steps: []hstep{can, run, rl("addr"), rl("same")}},
+		{Name: "boot-fails-on-busy-address", Steps: []hstep{{Op: "fbind"}, {Op: "busyrun"}, rl("same"), stop}},
+		{Name: "many-restarts", Steps: []hstep{run, rl("addr"), rl("routes"), rl("addr"), rl("timeout"), rl("swap"), rl("addr"), rl("zeroto"), rl("routes"), stop}},
+		{Name: "restarts-then-failed-boot", Steps: []hstep{run, rl("addr"), rl("routes"), rl("busy"), rl("same"), {Op: "ffree"}, can}},
 		{Name: "stop-in-probe-window", Steps: []hstep{run, {Op: "reload", Cfg: "routes", During: "probe-stop"}}},
 		{Name: "stop-in-probe-window-addr", Steps: []hstep{run, rl("timeout"), {Op: "reload", Cfg: "addr", During: "probe-stop"}}},
 		{Name: "cancel-in-probe-window", Steps: []hstep{run, {Op: "reload", Cfg: "addr", During: "probe-cancel"}}},
